@@ -3561,10 +3561,14 @@ func parseNodes(tx ReadTxn, ws memdb.WatchSet, idx uint64,
 			ns := service.(*structs.ServiceNode).ToNodeService()
 			// If version isn't defined in node meta, set it from the Consul service meta
 			if _, ok := dump.Meta[structs.MetaConsulVersion]; !ok && ns.ID == "consul" && ns.Meta["version"] != "" {
-				if dump.Meta == nil {
-					dump.Meta = make(map[string]string)
+				// dump.Meta is the map of the node row held by the state
+				// store: add the version to a copy, never to the row.
+				meta := make(map[string]string, len(dump.Meta)+1)
+				for k, v := range dump.Meta {
+					meta[k] = v
 				}
-				dump.Meta[structs.MetaConsulVersion] = ns.Meta["version"]
+				meta[structs.MetaConsulVersion] = ns.Meta["version"]
+				dump.Meta = meta
 			}
 			dump.Services = append(dump.Services, ns)
 		}
